@@ -136,6 +136,8 @@ class Engine:
         self.timeout_ms = timeout_ms or solve.budget_ms()
         self.max_paths = max_paths
         self.stubs = {}            # id(function) -> handler(eng, args, kwargs)
+        self.closure_contracts = {}   # nested function name -> dict(handler=, inline_depth=1): contract used at recursive calls
+        self._closure_depth = {}
         self.invariants = {}       # (qualname, loop_index) -> dict(inv=, variant=, havoc_extra=)
         self.obl = {}              # oid -> dict(status, paths, time_s, backend, cex, reason)
         self.force_interp = False  # interpret repository functions even on concrete arguments (cross-check)
@@ -274,6 +276,7 @@ class Engine:
                 raise Unsupported(f'more than {self.max_paths} paths')
             self.preset = worklist.pop()
             self.trace, self.pc, self.frames = [], PC(self.axioms), []
+            self._closure_depth = {}
             self._worklist = worklist
             self.stats['paths'] += 1
             try:
@@ -435,6 +438,16 @@ class Engine:
         if isinstance(f, SymMeth):
             return self.symmeth(f.name, f.recv, args, kwargs)
         if isinstance(f, Closure):
+            cc = self.closure_contracts.get(f.name)
+            if cc is not None:
+                d = self._closure_depth.get(f.name, 0)
+                if d >= cc.get('inline_depth', 1):
+                    return cc['handler'](self, f, args, kwargs)     # modular: the closure's own contract (recursion)
+                self._closure_depth[f.name] = d + 1
+                try:
+                    return self.run_fn(f.node, f.env, f.globs, args, kwargs, name=f.name)
+                finally:
+                    self._closure_depth[f.name] = d
             return self.run_fn(f.node, f.env, f.globs, args, kwargs, name=f.name)
         if isinstance(f, BoundM):
             return self.call_fn(f.fn, [f.selfv] + list(args), kwargs)
@@ -920,9 +933,14 @@ class Engine:
 
     def e_List(self, n, env, g):
         out = []
-        for x in n.elts:
+        for i, x in enumerate(n.elts):
             if isinstance(x, ast.Starred):
-                out.extend(self.iterate(self.ev(x.value, env, g)))
+                v = self.ev(x.value, env, g)
+                if isinstance(v, SymRange) and not v.is_concrete():
+                    if i != 0 or any(isinstance(y, ast.Starred) for y in n.elts[1:]):
+                        raise Unsupported('symbolic range in the middle of a list display')
+                    return SymConcat(v, [self.ev(y, env, g) for y in n.elts[1:]])
+                out.extend(self.iterate(v))
             else:
                 out.append(self.ev(x, env, g))
         return out
@@ -1684,23 +1702,57 @@ class Engine:
     def s_For(self, s, env, g):
         it = self.ev(s.iter, env, g)
         spec, lid = self.loop_spec(s)
+        tail = None
+        if isinstance(it, SymConcat):
+            it, tail = it.rng, it.tail
         if isinstance(it, SymRange) and not it.is_concrete():
             if spec is None:
                 raise Unsupported(f'for over a symbolic range without invariant ({lid})')
-            if not isinstance(s.target, ast.Name) or not isinstance(it.step, int) or it.step == 0:
-                raise Unsupported('symbolic range: target/step')
+            if not isinstance(s.target, ast.Name):
+                raise Unsupported('symbolic range: target')
+            step = it.step
+            if isinstance(step, int):
+                if step == 0:
+                    raise RaiseEx(ValueError('range() arg 3 must not be zero'))
+                positive = step > 0
+            else:
+                zs = Z(step)
+                if solve.prove(self.axioms + list(self.pc), zs > 0, min(self.timeout_ms, 3000)).status == 'unsat':
+                    positive = True
+                elif solve.prove(self.axioms + list(self.pc), zs < 0, min(self.timeout_ms, 3000)).status == 'unsat':
+                    positive = False
+                else:
+                    raise Unsupported('symbolic range step of unknown sign')
             tv = s.target.id
             env[tv] = it.start if isinstance(it.start, Sym) else Sym(Z(it.start))
             stop = Z(it.stop)
-            step = it.step
 
             def test():
                 cur = Z(env[tv])
-                return self.fork(cur < stop if step > 0 else cur > stop)
+                return self.fork(cur < stop if positive else cur > stop)
 
             def post_body():
-                env[tv] = Sym(z3.simplify(Z(env[tv]) + step))
-            r = self.cut_loop(s, env, g, spec, lid, test=test, pre_body=None, post_body=post_body, extra_havoc={tv})
+                env[tv] = Sym(z3.simplify(Z(env[tv]) + Z(step)))
+            r = self.cut_loop(s, env, g, spec, lid, test=test, pre_body=None, post_body=post_body, extra_havoc={tv},
+                              has_tail=bool(tail))
+            if tail:
+                # [*range(..), t1, t2]: the remaining elements run the same body; the invariant (phrased with the loop
+                # variable = next element) is re-checked after each of them
+                for k, tv_val in enumerate(tail):
+                    env[tv] = tv_val
+                    y0 = len(env.get('__yields__', ())) if isinstance(env.get('__yields__'), list) else 0
+                    snap = dict(env)
+                    try:
+                        self.ex(s.body, env, g)
+                    except Brk:
+                        return r
+                    except Cont:
+                        pass
+                    if spec.get('iter_check'):
+                        spec['iter_check'](self, snap, env, list(env.get('__yields__', []))[y0:], f'{lid}.iter@tail{k}')
+                if spec.get('after'):
+                    spec['after'](self, env, f'{lid}.after')
+                return r
             env.pop(tv, None)     # after the loop Python keeps the last taken value; not modelled -> poisoned
             return r
         if spec is not None and not isinstance(it, SymRange):
@@ -1715,7 +1767,7 @@ class Engine:
                 continue
         self.ex(s.orelse, env, g)
 
-    def cut_loop(self, s, env, g, spec, lid, test, pre_body=None, post_body=None, extra_havoc=()):
+    def cut_loop(self, s, env, g, spec, lid, test, pre_body=None, post_body=None, extra_havoc=(), has_tail=False):
         inv, variant = spec['inv'], spec.get('variant')
         facts = spec.get('facts')      # instances of axioms about uninterpreted spec functions (assumed)
         if facts:
@@ -1749,13 +1801,19 @@ class Engine:
             self.pc.append(ZB(facts(env)))
         self.pc.append(ZB(inv(env)))
         v0 = Z(variant(env)) if variant else None
+        if isinstance(env.get('__yields__'), list):
+            # a generator's earlier output is summarised by the invariant (ghost); only this iteration's yields are inspected
+            env['__yields__'] = []
         if test():
+            snap = dict(env)
             try:
                 self.ex(s.body, env, g)
             except Brk:
                 return
             except Cont:
                 pass
+            if spec.get('iter_check'):
+                spec['iter_check'](self, snap, env, list(env.get('__yields__', [])) if isinstance(env.get('__yields__'), list) else [], f'{lid}.iter')
             if post_body:
                 post_body()
             if facts:
@@ -1766,6 +1824,16 @@ class Engine:
                 self.check(f'{lid}.variant', z3.And(v0 >= 0, v1 < v0))
             raise PathEnd()
         self.ex(s.orelse, env, g)
+        if spec.get('after') and not has_tail:
+            spec['after'](self, env, f'{lid}.after')
+
+
+class SymConcat:
+    """[*range(symbolic), t1, ..., tk]"""
+    __pyvc_symbolic__ = True
+
+    def __init__(self, rng, tail):
+        self.rng, self.tail = rng, tail
 
 
 class SymRange:
